@@ -254,6 +254,11 @@ def line_kind(line):
     return 1 if line[:1] == '%' else 2
 
 
+def local_assigned(frame, name):
+    """Has the local `name` been assigned (in this loop iteration, for loop-carried locals)?"""
+    return hasattr(frame, name)
+
+
 def starts_with(x, lit):
     return x.startswith(lit)
 
